@@ -485,7 +485,7 @@ func (d *driver) observe(ctx context.Context, f *family, before map[string]int64
 		m.mu.Unlock()
 		ev[n] = e
 		rc[n] = m.pid.RestartCount()
-		fc, last := actor.VerifFaultCounter(m.pid)
+		fc, last := actor.VerifFaultState(m.pid)
 		flt[n] = fc
 		// the window rule exactly as recordFault applies it, on the real timestamps
 		prev := before[n]
@@ -512,7 +512,7 @@ func (d *driver) observe(ctx context.Context, f *family, before map[string]int64
 func (d *driver) lastFaults(f *family) map[string]int64 {
 	r := map[string]int64{}
 	for _, n := range f.names {
-		_, last := actor.VerifFaultCounter(f.members[n].pid)
+		_, last := actor.VerifFaultState(f.members[n].pid)
 		r[n] = last
 	}
 	return r
